@@ -835,6 +835,22 @@ def case_family(ctx, gtype, cons, arglists, nseeds):
     flush_counts(ctx)
 
 
+def case_big_constructions(ctx, specs, rseed):
+    """Constructions at sizes where samplers switch strategy for memory's sake: more than a million candidate pairs,
+    sides of different lengths, dense and sparse requests.  One fair seed each (seconds per request)."""
+    r = ctx.rng("c15-big", rseed, repr(specs))
+    for gtype, tokens in specs:
+        cons, args = tokens[0], tokens[1:]
+        exp = EXPECT[gtype][cons](args)
+        rnd = ("fair", 0, r.randrange(1 << 30))
+        st, val, obs = build(ctx, gtype, tokens, rnd)
+        ctx.count("cons:%s:%s" % (gtype, cons))
+        ctx.count("big_constructions")
+        judge(ctx, label_of(gtype, tokens, rnd), cons, exp, st, val, obs, gtype)
+        ctx.judged(("big", gtype, tuple(tokens)), nontrivial=True, sample={"spec": " ".join(tokens), "outcome": "graph" if st == "ok" else repr(val)[:100]})
+    flush_counts(ctx)
+
+
 DENSE_REGULAR = [[str(x) for x in t] for t in ((12, 12, 11), (16, 16, 15), (14, 14, 13), (18, 12, 11), (20, 20, 19),
                                                (15, 10, 9), (18, 18, 17))]
 
@@ -1723,6 +1739,11 @@ def workload(tier, seed):
         yield "family", {"gtype": "bipartite", "cons": "regular",
                          "arglists": [S(6, 3, 2), S(3, 3, 2), S(4, 4, 3), S(2, 2, 2), S(5, 5, 4)],
                          "nseeds": (400 if T else 100) + rep}
+    for spec in ((["bipartite", S("glrm", 1600, 640, 345000)],), (["bipartite", S("glrm", 640, 1600, 400000)],),
+                 (["bipartite", S("glrm", 1001, 1000, 340000)], ["bipartite", S("glrm", 2000, 600, 1000)]),
+                 (["simple", S("gnm", 1500, 400000)], ["bipartite", S("glrd", 1500, 700, 300)])) + \
+            (((["bipartite", S("glrm", 3000, 700, 900000)],), (["bipartite", S("glrm", 700, 3000, 2100000)],)) if T else ()):
+        yield "big_constructions", {"specs": [list(x) for x in spec], "rseed": seed}
     # nearly complete regular graphs need hundreds of restarts
     r = random.Random("c15-dense-%s" % seed)
     for args in DENSE_REGULAR:
